@@ -292,6 +292,18 @@ func (w *Walker) walkSelection(parentDef *ast.Definition, it ast.Selection) {
 		if def != nil && !w.validatedFragmentSpreads[def.Name] {
 			// prevent infinite recursion
 			w.validatedFragmentSpreads[def.Name] = true
+			// the directives of the fragment definition belong to the fragment: the
+			// variables they use are used by every operation that reaches it
+			for _, dir := range def.Directives {
+				dirDef := w.Schema.Directives[dir.Name]
+				for _, arg := range dir.Arguments {
+					var argDef *ast.ArgumentDefinition
+					if dirDef != nil {
+						argDef = dirDef.Arguments.ForName(arg.Name)
+					}
+					w.walkArgument(argDef, arg)
+				}
+			}
 			w.walkSelectionSet(nextParentDef, def.SelectionSet)
 		}
 
